@@ -4,6 +4,7 @@ package main
 
 import (
 	"fmt"
+	"sort"
 	"go/constant"
 	"go/types"
 	"math/big"
@@ -912,7 +913,44 @@ func (env *Env) specCall(sf *SpecFunc, e *Expr) *Val {
 	n.vars = vars // spec functions are closed: only their parameters are in scope
 	n.fr = nil
 	n.depth = env.depth
-	return n.eval(sf.Body)
+	hide := false
+	if sf.Opaque {
+		cur := ""
+		if env.ex.fn != nil {
+			cur = pkgPathOf(env.ex.fn)
+		}
+		hide = cur != sf.Pkg
+	}
+	if !hide {
+		return n.eval(sf.Body)
+	}
+	// Outside the declaring package the body is hidden: the value is an
+	// uninterpreted function of the arguments and of every heap array the body reads.
+	saved := readHook
+	readHook = map[string]*Term{}
+	res := n.eval(sf.Body)
+	reads := readHook
+	readHook = saved
+	if res.K != VScalar {
+		env.fail("opaque spec function %s must be scalar", sf.Name)
+	}
+	var keys []string
+	for k := range reads {
+		keys = append(keys, k)
+	}
+	sort.Strings(keys)
+	var ts []*Term
+	for _, p := range sf.Params {
+		ts = append(ts, vars[p.Name].leaves()...)
+	}
+	for _, k := range keys {
+		ts = append(ts, reads[k])
+		if saved != nil {
+			saved[k] = reads[k]
+		}
+	}
+	res = &Val{K: VScalar, T: App(fmt.Sprintf("opq$%s$%08x", sf.Name, fnv32(strings.Join(keys, ";"))), res.T.Sort, ts...), Ty: res.Ty}
+	return res
 }
 
 func sameShape(a *Val, ty types.Type) bool {
